@@ -395,7 +395,7 @@ PROPS["C04"] = {
     "gen": ["gen_pseudo_props.py"],
     "lean": ["QV.Props.C04"],
     "streams": ["c04"],
-    "rule": "a quarter of the documents import with a version and a quarter of the handler functions carry a return type annotation (both WARNINGs); acceptance is the library's own Diagnostics::has_error(), cross-checked against the recorded kinds; clean documents, preferring ones with warnings, also run through the real CLI (exit 0, outputs byte-identical to the in-process ones, warning count); 30 fault kinds, including constants bound to properties whose type the .ui pass cannot serialise (candidates are derived from the metatypes by type: class-typed other than QBrush/QColor/QCursor/QKeySequence/QPixmap, QVariant, object pointers, class-typed attached properties), dynamic members of nested object maps and 1-3 handlers inside object, gadget and attached maps, each of which must be diagnosed inside its own text, two runs reporting the same diagnostics; constants only the header can set (`separator` next to other bindings) and constant object references (`buddy`) are in the ledger. Each case derives from a generated document (object trees over the real Qt 5 metatypes: widgets, the four layouts, "
+    "rule": "a quarter of the documents import with a version and a quarter of the handler functions carry a return type annotation (both WARNINGs); acceptance is the library's own Diagnostics::has_error(), cross-checked against the recorded kinds; clean documents, preferring ones with warnings, also run through the real CLI (exit 0, outputs byte-identical to the in-process ones, warning count); 37 fault kinds, incl. ill-typed DYNAMIC values at every level where a value function is built (scalar, gadget-map member, pointer property; nested-object-map and attached members are refused as such), ill-typed or ill-shaped values on the properties of the special consumers (`actions`, `model`, header properties, `separator`) — target properties and the non-fitting source type are chosen from the metatypes by type and READ/WRITE — and constants bound to properties whose type the .ui pass cannot serialise (candidates are derived from the metatypes by type: class-typed other than QBrush/QColor/QCursor/QKeySequence/QPixmap, QVariant, object pointers, class-typed attached properties), dynamic members of nested object maps and 1-3 handlers inside object, gadget and attached maps, each of which must be diagnosed inside its own text, two runs reporting the same diagnostics; constants only the header can set (`separator` next to other bindings) and constant object references (`buddy`) are in the ledger. Each case derives from a generated document (object trees over the real Qt 5 metatypes: widgets, the four layouts, "
             "spacers, actions, static separators, menus, tab pages, item views with header.* maps, combo models, explicit `actions` "
             "lists; per object 0-7 constant/dynamic scalar bindings, grouped font/size/rect/size-policy/margins/icon members incl. "
             "groups mixing constant and dynamic members, attached QLayout.*/QTabWidget.* bindings, signal handlers) translated by the "
@@ -471,7 +471,7 @@ PROPS["C20"] = {
     "gen": ["gen_pseudo_props.py"],
     "lean": ["QV.Props.C20"],
     "streams": ["c20"],
-    "rule": "half of the documents live in an in-process directory module with four custom components; every document also gets an unknown type placed above a component instance or above an object a surviving object refers to: the twin is the document with exactly that subtree and the references into it removed, the forms must be equal including <customwidgets>, and a reference to a vanished id must be diagnosed or dropped, never written. Each case is a clean document of the C04 generator with one fault (30 kinds × sampled positions; every planted binding of a multi-binding fault must be reported in omit mode; 4 per document in the quick "
+    "rule": "half of the documents live in an in-process directory module with four custom components; every document also gets an unknown type placed above a component instance or above an object a surviving object refers to: the twin is the document with exactly that subtree and the references into it removed, the forms must be equal including <customwidgets>, and a reference to a vanished id must be diagnosed or dropped, never written. Each case is a clean document of the C04 generator with one fault (every one of the 37 kinds must be reported in preview mode, also compared with generate mode, the form equal to the twin's outside the faulted object's own values; × sampled positions; every planted binding of a multi-binding fault must be reported in omit mode; 4 per document in the quick "
             "tier). c20-local (oracle, on a variant where a third of the unreferenced objects are anonymous): omit mode yields a form; "
             "the planted error is reported with its range inside the planted binding (for the kinds the preview passes can see); the "
             "XML tree of the faulted run equals the tree of the fault-free run (document without the faulty binding / with the "
@@ -660,7 +660,7 @@ PROPS["C16"] = {
             "every emitted spelling compiled AND RUN, the UTF-16 units / bytes printed by the program = the source string; "
             "c16-rejects (oracle): bodies that do not return a value of the property type on every path must be refused with the "
             "return-type diagnostic, in gadget sub-bindings exactly as in plain bindings; spec-cxxlit (spec): g++'s reading of 2400 "
-            "random spellings (incl. ill-formed ones) = Spec.CxxLit.decode16/decode8; distinct = distinct requests",
+            "random spellings (incl. ill-formed ones) = Spec.CxxLit.decode16/decode8; distinct = distinct requests; signal pointers: 12 notify signals carrying the value and 13 plain signals whose parameters cover every passing convention (by value: arithmetic, enumerations, QFlags, pointers; by reference to const: QString, QVariant, lists, gadgets; mixes), connected by handlers with none/some/all parameters and by bindings; c16-lit sig (model): the QOverload<…>::of(&Class::signal) spellings of the real header = formatSignalPointer; c16-doubles (oracle): the double constant spelled in the real header, compiled and RUN, has the bit pattern of the source constant expression (±inf, NaN, ±0.0, denormals, ±DBL_MAX, folded sub-expressions; 4 positions); c16-lit num (model): spelling of non-finite constants = formatNonFinite",
     "trusted_base": [
         "g++ 12 (-std=c++17) as the C++ compiler; cxx/qtmock.h + cxx/QtDebug: hand-written mock of the documented Qt 5 API "
         "(QString/QStringLiteral, QFlags + Q_DECLARE_OPERATORS_FOR_FLAGS as in qflags.h of Qt 5, QList != QVector, "
@@ -703,7 +703,7 @@ PROPS["C16"] = {
                   "with unscoped, QFlags and scoped enumeration operands - scoped ones printed as static_cast<int>(operand) - through the "
                   "double cast, with and without Q_DECLARE_OPERATORS_FOR_FLAGS); builtin_calls_welltyped (std::max/min incl. the explicit "
                   "<uint>) proved in full over small typing tables; the pre-repair behaviour is kept as ...Old/...Pre70 definitions with "
-                  "kernel-checked witnesses (F3b, F3a, F13, F23, F24, F70). Compilability is checked by g++ on every accepted generated header.",
+                  "kernel-checked witnesses (F3b, F3a, F13, F23, F24, F70). Compilability is checked by g++ on every accepted generated header. signal_pointer_matches_declaration (the parameter list printed in QOverload<> is the declared one, lists and gadgets by reference to const).",
     "level_note": "trusted: Lean kernel; model tied by exact comparison of header inventories (names, indexes, arrays, includes, literal "
                   "and enumerator spellings, int casts) and literal spellings (quick, seed 1: 2354 generated + 27 corpus cases, 1768 model "
                   "comparisons, 0 disagreements) and Spec.CxxLit tied to g++ (2400 spellings, 0 disagreements); compile oracle: quick tier "
@@ -712,7 +712,7 @@ PROPS["C16"] = {
                   "corpus/C16; F25 (enumerator typed as its QFlags alias) is a known finding, matched only when every g++ message of the "
                   "failing batch is the QFlags->enumeration conversion error; the seeded changes C16/1-4 and C06/2 are each found with "
                   "failing inputs (c16-compile/c16-scan/c16-inv/c16-rejects); qualify_cxx_variant_name and format_bitwise_operand are "
-                  "pinned modelled functions",
+                  "pinned modelled functions; is_const_ref_preferred is a pinned modelled function; the generator's f64 arithmetic for the expected value of constant expressions counts as the same IEEE operations as the constant folder",
     "technique": "Lean 4 proof (freshness invariant threaded through the build loop, tag injectivity, shift/mask arithmetic, "
                  "state-machine literal reader round trip, small C++ typing tables) + refutation witnesses + differential correspondence "
                  "+ compile-and-run oracle with g++ against declarations generated from the same metatypes",
